@@ -27,18 +27,18 @@ if rc != 0: sys.exit(o)
 meta = {"property": pid, "variant": k, "source": "independent seeding sub-agent (given only the property text and a scratch worktree)", "confirmation": {}}
 try:
     # the demo lives in its own directory so that ./... of the library is not polluted
-    ddir = os.path.join(wt, "zz_seed_demo")
+    ddir = os.path.join(wt, "out")
     os.makedirs(ddir)
     runcmd = None
     for d in demos:
         if os.path.isdir(d):
             shutil.copytree(d, os.path.join(ddir, os.path.basename(d)))
-            runcmd = f"go run ./zz_seed_demo/{os.path.basename(d)}"
+            runcmd = f"go run ./out/{os.path.basename(d)}"
         else:
             name = os.path.basename(d)
             if name.endswith(".txt"): name = name[:-4]
             shutil.copy(d, os.path.join(ddir, name))
-            runcmd = "go test -vet=off -count=1 ./zz_seed_demo/"
+            runcmd = "go test -vet=off -count=1 ./out/"
     rc0, o0 = sh(runcmd, cwd=wt)
     meta["confirmation"]["demo_on_unmodified_tree"] = "pass" if rc0 == 0 else "FAIL: " + o0[-400:]
     rc, o = sh(["git", "apply", patch], cwd=wt)
